@@ -159,7 +159,7 @@ def orders(ctx):
     ns.append(0x4000000000000000000020108A2E0CC0D99F8A5EF)
     for k in (31, 32, 33, 64, 160, 161, 521, 600):
         ns += [(1 << (k - 1)) + 1, (1 << k) - 1]
-    for _ in range(4 if ctx.quick else 40):
+    for _ in range(12 if ctx.quick else 40):
         bl = rng.choice([2, 3, 5, 7, 9, 15, 17, 31, 33, 65, 161, 257, 521, 600])
         ns.append(max(2, rng.getrandbits(bl) | (1 << (bl - 1))))
     return ns
@@ -178,11 +178,11 @@ def gen_cases(ctx):
     """(order, secexp, hash, digest, retry_gen, extra, tag)"""
     rng = ctx.rng
     for n in orders(ctx):
-        hfs = HASHES if not ctx.quick else rng.sample(HASHES, 3)
+        hfs = HASHES if not ctx.quick else rng.sample(HASHES, 5)
         for hf in hfs:
             ds = digests_for(ctx, n, hf)
             if ctx.quick:
-                ds = rng.sample(ds, 3)
+                ds = rng.sample(ds, 5)
             for dg in ds:
                 x = rng.choice([1, n - 1, rng.randrange(1, n)]) if n > 1 else 1
                 extra = rng.choice([b"", b"", b"\x00", bytes(rng.getrandbits(8) for _ in range(rng.randrange(1, 40)))])
@@ -369,6 +369,20 @@ def check_sign(sk, dg, hf, extra):
     return None
 
 
+def check_sign_data(sk, msg, hf, extra):
+    """sign_deterministic(data) = sign_digest_deterministic(hash(data)) with truncation allowed, and repeatable"""
+    pair = lambda r, s, o: (r, s)
+    try:
+        a = sk.sign_deterministic(msg, hashfunc=hf, sigencode=pair, extra_entropy=extra)
+        b = sk.sign_deterministic(msg, hashfunc=hf, sigencode=pair, extra_entropy=extra)
+        c = sk.sign_digest_deterministic(hf(msg).digest(), hashfunc=hf, sigencode=pair, extra_entropy=extra, allow_truncate=True)
+    except Exception as e:  # noqa
+        return {"got": "exception " + common.errname(e) + ": " + str(e)[:200]}
+    if a != b or a != c:
+        return {"sign_deterministic": list(a), "again": list(b), "sign_digest_deterministic(hash(data))": list(c)}
+    return check_sign(sk, hf(msg).digest(), hf, extra)
+
+
 def search(ctx):
     from ecdsa import rfc6979, SigningKey, curves
     rng = ctx.rng
@@ -413,6 +427,13 @@ def search(ctx):
         if bad:
             ctx.violation({"input": {"kind": "sign", "curve": cv.name, "d": sk.privkey.secret_multiplier, "digest": dg.hex(), "hash": hf.__name__.replace("openssl_", ""), "extra": ""},
                            "observed": bad, "expected": "standard ECDSA signature at the RFC 6979 nonce"})
+        msg = b"c04 message %d" % rng.getrandbits(32)
+        extra = rng.choice([b"", b"\x01\x02"])
+        n_eval += 1
+        bad = check_sign_data(sk, msg, hf, extra)
+        if bad:
+            ctx.violation({"input": {"kind": "sign_data", "curve": cv.name, "d": sk.privkey.secret_multiplier, "data": msg.hex(), "hash": hf.__name__.replace("openssl_", ""), "extra": extra.hex()},
+                           "observed": bad, "expected": "sign_deterministic(data) = sign_digest_deterministic(hash(data)) = ECDSA signature at the RFC 6979 nonce, every time"})
     ctx.cov["search_evaluations"] = n_eval
     ctx.hist("search", "oracle_cases", n_eval)
 
@@ -425,4 +446,6 @@ def replay(rec):
         return check_k(rfc6979, i["order"], i["secexp"], hf, bytes.fromhex(i["digest"]), i["retry_gen"], bytes.fromhex(i["extra"])) is not None
     cv = toy() if i["curve"] == "toy167" else [c for c in curves.curves if c.name == i["curve"]][0]
     sk = SigningKey.from_secret_exponent(i["d"], cv, hashfunc=hashlib.sha1)
+    if i["kind"] == "sign_data":
+        return check_sign_data(sk, bytes.fromhex(i["data"]), hf, bytes.fromhex(i["extra"])) is not None
     return check_sign(sk, bytes.fromhex(i["digest"]), hf, bytes.fromhex(i["extra"])) is not None
